@@ -345,3 +345,70 @@ def c06_cleanup(obs, case=None):
         if obs.percall_after_followup:
             tags.append("per-call-subscription-received-documents-of-next-call")
     return sorted(set(tags))
+
+
+# ------------------------------------------------------------------------------------------------ recorded data (C03 / C05)
+def event_table(docs):
+    """[ {stream: {seq_num: data}}, ... ] per run (in start order) with the LAST event per seq_num, plus stops."""
+    runs, _ = group_runs(docs)
+    out = []
+    for uid, items in runs.items():
+        if uid is None:
+            continue
+        names = {}
+        table = defaultdict(dict)
+        emitted = defaultdict(list)
+        stop = None
+        for i, n, d in items:
+            if n == "descriptor":
+                names[d["uid"]] = d.get("name")
+            elif n == "event":
+                s = names.get(d["descriptor"])
+                table[s][d["seq_num"]] = d["data"]
+                emitted[s].append((i, d["seq_num"]))
+            elif n == "event_page":
+                s = names.get(d["descriptor"])
+                for k, sn in enumerate(d["seq_num"]):
+                    table[s][sn] = {key: v[k] for key, v in d["data"].items()}
+                    emitted[s].append((i, sn))
+            elif n == "stop":
+                stop = d
+        out.append(dict(uid=uid, table=dict(table), emitted=dict(emitted), stop=stop, names=names))
+    return out
+
+
+def c03_same_data(obs, ref_docs):
+    tags = []
+    for c in obs.calls:
+        if c["api"] in ("call", "resume") and c["outcome"] == "exc" and c["exc_type"] != "RunEngineInterrupted":
+            if c["exc_type"] == "TransitionError" and c["state"] == "suspending":
+                tags.append("!engine-left-in-suspending-by-late-suspension")  # the C07 finding seen from here; no landing context
+            else:
+                tags.append(f"{'resume' if c['api'] == 'resume' else 'call'}-raised-{c['exc_type']}")
+    if obs.stuck:
+        tags.append("engine-stuck")
+    if tags or obs.state != "idle":
+        return sorted(set(tags))
+    a, b = event_table(ref_docs), event_table(obs.docs)
+    if len(a) != len(b):
+        return ["number-of-runs-differs-from-uninterrupted-execution"]
+    for ra, rb in zip(a, b):
+        sa = {k: v for k, v in ra["table"].items() if k != "interruptions"}
+        sb = {k: v for k, v in rb["table"].items() if k != "interruptions"}
+        if set(sa) != set(sb):
+            tags.append("streams-differ-from-uninterrupted-execution")
+            continue
+        for s in sa:
+            if set(sa[s]) != set(sb[s]):
+                tags.append("seq_nums-differ-from-uninterrupted-execution")
+            else:
+                for sn in sa[s]:
+                    if sa[s][sn] != sb[s][sn]:
+                        tags.append("final-reading-differs-from-uninterrupted-execution")
+        na = {k: v for k, v in (ra["stop"] or {}).get("num_events", {}).items() if k != "interruptions"}
+        nb = {k: v for k, v in (rb["stop"] or {}).get("num_events", {}).items() if k != "interruptions"}
+        if na != nb:
+            tags.append("num_events-differs-from-uninterrupted-execution")
+        if (ra["stop"] or {}).get("exit_status") != (rb["stop"] or {}).get("exit_status"):
+            tags.append("exit-status-differs-from-uninterrupted-execution")
+    return sorted(set(tags))
